@@ -16,6 +16,11 @@ if TYPE_CHECKING:
 
 
 # TODO(#3241): support qudits and non-square operators.
+def _key_repr(key: value.MeasurementKey) -> str:
+    """Evaluable repr of a channel key: the plain name, or the MeasurementKey when it has a path."""
+    return repr(key) if key.path else repr(str(key))
+
+
 class KrausChannel(raw_types.Gate):
     """A generic channel that can record the index of its selected operator.
 
@@ -71,7 +76,8 @@ class KrausChannel(raw_types.Gate):
             return NotImplemented
         if self._key != other._key:
             return False
-        return np.allclose(np.asarray(self._kraus_ops), np.asarray(other._kraus_ops))
+        ops, other_ops = np.asarray(self._kraus_ops), np.asarray(other._kraus_ops)
+        return ops.shape == other_ops.shape and np.allclose(ops, other_ops)
 
     def __hash__(self) -> int:
         # __eq__ compares the operators approximately, so only exactly compared data may be hashed.
@@ -124,7 +130,7 @@ class KrausChannel(raw_types.Gate):
     def __repr__(self):
         args = ['kraus_ops=[' + ', '.join(proper_repr(op) for op in self._kraus_ops) + ']']
         if self._key is not None:
-            args.append(f'key=\'{self._key}\'')
+            args.append(f'key={_key_repr(self._key)}')
         return f'cirq.KrausChannel({", ".join(args)})'
 
     def _json_dict_(self) -> dict[str, Any]:
